@@ -391,6 +391,40 @@ def c01_extra(rep, tier, coverage, ctx):
     out.update(c01_setop_family(rep, tier, coverage, ctx))
     return out
 
+def c10_let_family(rep, tier, coverage, ctx):
+    """C10 across declarations: the frame of a let-bound (into) relation is the frame of its pipeline - a bare name that two of
+    its columns carry is as ambiguous in the consumer as it is after the same pipeline written inline, a column its pipeline
+    dropped is as unknown."""
+    a, b, k, c = col("a"), col("b"), col("k"), col("c")
+    inners = [[from_("t"), join("inner", [from_("u")], eqcol("k"))], [from_("t"), join("left", [from_("u")], eqcol("k"), explicit=True)],
+              [from_("t"), join("inner", [from_("u")], eqcol("k")), filter_(bin_(">", b, lit(0)))],
+              [from_("t"), select(item("k"), item("a"))], [from_("t"), exclude("a")], [from_("t"), group(["a"], [aggregate(item(agg("sum", b), "s"))])],
+              [from_("t"), derive(item(bin_("+", a, lit(1)), "x")), select(item("x"), item("k"))],
+              [from_("t"), join("inner", [from_("u"), select(item("k"), item("c"))], eqcol("k"), alias="u")]]
+    uses = [[select(item(n))] for n in ("a", "k", "b", "c", "s", "x")] + [[filter_(bin_(">", col(n), lit(0)))] for n in ("a", "b", "c")] + \
+           [[sort(("asc", n))] for n in ("a", "k", "c")] + [[derive(item(bin_("+", col(n), lit(1)), "z"))] for n in ("a", "b")] + \
+           [[group([n], [aggregate(item(agg("count", col("b")), "n"))])] for n in ("a", "k")] + [[join("inner", [from_("u")], eqcol("k"))], [take(1, 2)]]
+    progs = []
+    for inner in inners:
+        for use in uses:
+            for surface in ("let", "into"):
+                d = {"kind": "let", "name": "rel1", "short": "rel1", "steps": inner, "params": [], "named": [], "body": {"t": "lit"}, "surface": surface, "module": ""}
+                progs.append({"id": f"sl{len(progs)}", "decl": True, "decls": [d], "steps": [from_("rel1")] + use})
+            progs.append({"id": f"sl{len(progs)}", "decl": True, "steps": inner + use})          # the same pipeline inline (control)
+    def fix_(st_):
+        st_.setdefault("at", [])
+        for key in ("with", "pipe"):
+            for x in st_.get(key, []) or []:
+                fix_(x)
+    for p in progs:
+        for st_ in p["steps"] + [y for d in p.get("decls", []) for y in d["steps"]]:
+            fix_(st_)
+    dbset = os.path.join(ROOT, "corpus", "dbs_quick.json")
+    res = l1check.run(rep, "C10-let", progs, dbset, CONFIG["C10"]["relevant"])
+    return {"let_family": {"programs": len(progs), "accepted": res["accepted"], "rejected": res["rejected"], "not_judged": res["skipped"],
+                           "explanation": "let / into relation (joins of tables sharing column names, projections, exclusions, groups) x bare reference in the consumer, next to the same pipeline inline"},
+            "traces_validated_against_impl": coverage["traces_validated_against_impl"] + res["accepted"] + res["rejected"]}
+
 def c03_let_family(rep, tier, coverage, ctx):
     """C03 across declarations: a relation sorted inside a let (or a sort followed by group {} (take n)) and taken from
     in the consumer, followed by a transform that forces the take into a sub-query: sort x projection x take x follower."""
@@ -500,6 +534,7 @@ def c03_extra(rep, tier, coverage, ctx):
 CONFIG["C03"]["extra"] = c03_extra
 CONFIG["C01"]["extra"] = c01_extra
 CONFIG["C05"]["extra"] = c05_dialect_frames
+CONFIG["C10"]["extra"] = c10_let_family
 
 def check(pid, tier, extra=None):
     cfg = CONFIG[pid]
